@@ -57,7 +57,7 @@ def run(rep):
                 combos = [OPTS[(c['id'] + li) % 4]] if (c['id'] + li) % 3 == 0 else [OPTS[0]]
             for g, rk in combos:
                 jobs.append({'id': f"{c['id']}/{L}/{g}{rk}", 'case': c['id'], 'logic': L, 'arg': c['arg'],
-                             'g': g, 'r': rk, 'mode': ('build', 'step', 'build', 'peek')[(c['id'] + li) % 4],
+                             'g': g, 'r': rk, 'mode': 'build' if (c['id'] + li) % 2 else 'step',
                              'level': 'verdict', 'max_steps': -1, 'timeout_s': 30,
                              'order': (c['id'] + li) % (4 if thorough else 2)})
     outs = P.run_jobs(jobs, 'c03')
